@@ -31,6 +31,9 @@ type fixture struct {
 	parent []int          // class id -> parent id or -1
 	id     map[string]int // role -> id: G D S S2 U X
 	order  []int          // declaration order
+	spell  *Spelling      // decl stream: how the members of one kind are WRITTEN in D (nil: the canonical spelling)
+	// decl stream: visibility name -> what the model's parser says the member written with it carries
+	spellCarried map[string]string
 }
 
 func newFixture(sh Shape) *fixture {
@@ -371,6 +374,9 @@ func (f *fixture) declare(sb *strings.Builder, cells []cell, hist bool) {
 		}
 	}
 	dn := f.n("D")
+	if f.spell != nil {
+		f.declareTrait(sb)
+	}
 	for _, i := range f.order {
 		name := f.names[i]
 		ext := ""
@@ -379,16 +385,20 @@ func (f *fixture) declare(sb *strings.Builder, cells []cell, hist bool) {
 		}
 		fmt.Fprintf(sb, "class %s%s {\n", name, ext)
 		if i == f.id["D"] {
-			for _, m := range mods {
-				fmt.Fprintf(sb, "  %s $p_%s = 1;\n", modKw[m], m)
-				fmt.Fprintf(sb, "  %s static $sp_%s = 1;\n", modKw[m], m)
-				fmt.Fprintf(sb, "  %s function m_%s() { $this->cnt = $this->cnt + 1; return 7; }\n", modKw[m], m)
-				fmt.Fprintf(sb, "  %s static function sm_%s() { %s::$scnt = %s::$scnt + 1; return 8; }\n", modKw[m], m, dn, dn)
+			if f.spell != nil {
+				f.declareSpelled(sb)
+			} else {
+				for _, m := range mods {
+					fmt.Fprintf(sb, "  %s $p_%s = 1;\n", modKw[m], m)
+					fmt.Fprintf(sb, "  %s static $sp_%s = 1;\n", modKw[m], m)
+					fmt.Fprintf(sb, "  %s function m_%s() { $this->cnt = $this->cnt + 1; return 7; }\n", modKw[m], m)
+					fmt.Fprintf(sb, "  %s static function sm_%s() { %s::$scnt = %s::$scnt + 1; return 8; }\n", modKw[m], m, dn, dn)
+				}
+				sb.WriteString("  public static function sreset() { self::$sp_pub = 1; self::$sp_prot = 1; self::$sp_priv = 1; self::$scnt = 0; }\n")
 			}
 			sb.WriteString("  public $cnt = 0;\n  public static $scnt = 0;\n")
 			sb.WriteString("  public function obs() { return $this->p_pub . \",\" . $this->p_prot . \",\" . $this->p_priv . \",\" . $this->cnt; }\n")
 			sb.WriteString("  public static function sobs() { return self::$sp_pub . \",\" . self::$sp_prot . \",\" . self::$sp_priv . \",\" . self::$scnt; }\n")
-			sb.WriteString("  public static function sreset() { self::$sp_pub = 1; self::$sp_prot = 1; self::$sp_priv = 1; self::$scnt = 0; }\n")
 		}
 		for role, ms := range per {
 			if f.id[role] == i {
@@ -414,6 +424,10 @@ func (f *fixture) script(cells []cell) string {
 	f.declare(&sb, cells, false)
 	dn := f.n("D")
 	fmt.Fprintf(&sb, "function cell%s($id, $f, $o) {\n  try { $v = $f(); $r = \"ok\"; } catch (\\Throwable $e) { $r = \"denied=\" . get_class($e); }\n  echo \"\\n#\", $id, \":\", $r, \":\", $o->obs(), \":\", %s::sobs(), \"\\n\";\n  %s::sreset();\n}\n", f.sh.Tag, dn, dn)
+	if f.spell != nil {
+		// does the spelled declaration give D its members at all (a constructor parameter that is not promoted does not)
+		fmt.Fprintf(&sb, "try { $i = new %s(); echo \"\\n#init:\", $i->obs(), \":\", %s::sobs(), \"\\n\"; } catch (\\Throwable $e) { echo \"\\n#init:threw=\", get_class($e), \"\\n\"; }\n", dn, dn)
+	}
 	for _, c := range cells {
 		objRole := c.Obj
 		if c.Probe.Named != "" {
@@ -471,7 +485,7 @@ func (f *fixture) modelSite(c cell) string {
 			obj = optID(f, c.Site.Run)
 		}
 	}
-	return strings.Join([]string{c.Probe.Path, c.Probe.Recv, c.Mod, ctx, lex, obj, optID(f, "D")}, "\t")
+	return strings.Join([]string{c.Probe.Path, c.Probe.Recv, f.carried(c), ctx, lex, obj, optID(f, "D")}, "\t")
 }
 
 func (c cell) modelOp() string {
@@ -488,7 +502,7 @@ func (c cell) modelOp() string {
 
 // specAllowed: PHP's rule, re-implemented here (no model involved): lexical class vs declaring class.
 func (f *fixture) specAllowed(c cell) bool {
-	switch c.Mod {
+	switch f.written(c) {
 	case "pub":
 		return true
 	case "priv":
